@@ -297,6 +297,15 @@ pd:
     op:
       k: 8.0
 
+pb2:
+  base: pb
+
+pd3:
+  base: pd2
+
+pd2:
+  base: pd
+
 base_net:
   base: CircuitTemplate
   nodes:
@@ -305,14 +314,14 @@ base_net:
   edges:
     - [a/op/x, b/op/u, null, {weight: 2.0}]
 """
-DERIVE_K = {'pa': 2.0, 'pb': 4.0, 'pc': 6.0, 'pd': 8.0}
+DERIVE_K = {'pa': 2.0, 'pb': 4.0, 'pc': 6.0, 'pd': 8.0, 'pb2': 4.0, 'pd3': 8.0}
 
 
 def derive_cases(tier, seed):
     """circuits derived via base: that override inherited node keys, add nodes and add edges, in every combination"""
     out = []
-    for override in ({}, {'a': 'pc'}, {'b': 'pc'}, {'a': 'pd', 'b': 'pc'}):
-        for added in ({}, {'cc': 'pd'}, {'cc': 'pa', 'dd': 'pb'}):
+    for override in ({}, {'a': 'pc'}, {'b': 'pc'}, {'a': 'pd', 'b': 'pc'}, {'b': 'pb2'}, {'a': 'pd3'}):
+        for added in ({}, {'cc': 'pd'}, {'cc': 'pa', 'dd': 'pb'}, {'cc': 'pb2', 'dd': 'pd3'}):
             for extra_edges in ([], [['b/op/x', 'a/op/u', 0.5]]):
                 for order in ('override_first', 'added_first'):
                     if not override and not added and not extra_edges:
@@ -371,8 +380,66 @@ def run_derive(case):
     return res
 
 
+def hier_rt_cases(tier, seed):
+    """one sub-circuit object used for several branches, update_var on some of them, then to_yaml -> from_yaml"""
+    out = []
+    upd_sets = [[], [['c2/a/so/k', 0.5]], [['c1/b/so/k', 4.5], ['c3/a/so/x', 0.9]], [['c2/a/so/k', 0.5], ['c3/a/so/k', 0.75]],
+                [['c2/all/so/k', 1.25]], [['c1/a/so/k', 0.5], ['c2/a/so/k', 0.5]]]
+    for nb in (2, 3):
+        for upd in upd_sets:
+            if any(int(k[1]) > nb for k, _ in upd):
+                continue
+            out.append({'kind': 'hier_rt', 'branches': nb, 'updates': upd, 'seed': seed})
+    return out
+
+
+def run_hier_rt(case):
+    from pyrates import OperatorTemplate, NodeTemplate, CircuitTemplate, clear_frontend_caches
+    from .. import impl
+    res = {'evals': 1, 'nontrivial': bool(case['updates'])}
+    sig = {'features': ['hierarchy_round_trip'], 'tag': 'hier_rt'}
+    so = OperatorTemplate('so', equations=["d/dt * x = -k*x"], variables={'x': 'output(0.6)', 'k': 1.5})
+    sub = CircuitTemplate('sub', nodes={'a': NodeTemplate('na', operators=[so]), 'b': NodeTemplate('nb', operators={so: {'k': 2.5}})})
+    labels = [f'c{i + 1}' for i in range(case['branches'])]
+    top = CircuitTemplate('top', circuits={l: sub for l in labels})
+    exp = {f'{l}/{n}/so/{v}': val for l in labels for n, kk in (('a', 1.5), ('b', 2.5)) for v, val in (('k', kk), ('x', 0.6))}
+    try:
+        for path, val in case['updates']:
+            top.update_var(node_vars={path: val})
+            *node, op, var = path.split('/')
+            for key in exp:
+                parts = key.split('/')
+                if parts[2:] == [op, var] and all(a == 'all' or a == b for a, b in zip(node, parts[:2])):
+                    exp[key] = val
+        top.to_yaml('hier_rt.yaml')
+        clear_frontend_caches()
+        loaded = CircuitTemplate.from_yaml('hier_rt/top')
+        C = impl.compile_field(loaded, {'vectorize': False})
+        y0, dy = C.y0(), C.call(C.y0(), t=0)
+        got = {}
+        for l in labels:
+            for n in ('a', 'b'):
+                pos = C.position(f'{l}/{n}/so/x')[0]
+                got[f'{l}/{n}/so/x'] = float(y0[pos])
+                got[f'{l}/{n}/so/k'] = -float(dy[pos]) / float(y0[pos])
+    except Exception as e:
+        sig['exc'] = type(e).__name__
+        res['viol'] = dict(kind='raises', sig=dict(sig, kind='raises'), detail=f'{type(e).__name__}: {e}'[:200])
+        res['ok'] = False
+        return res
+    bad = {k: (got[k], exp[k]) for k in exp if abs(got[k] - exp[k]) > 1e-9}
+    if bad:
+        res['viol'] = dict(kind='round_trip_differs', sig=dict(sig, kind='round_trip_differs'), wrong=bad)
+        res['ok'] = False
+        return res
+    res['outcome'] = 'hier_rt'
+    res['ok'] = True
+    return res
+
+
 def cases(tier, seed):
-    return model_cases(tier, seed) + edit_cases(tier, seed) + xref_cases(tier, seed) + derive_cases(tier, seed)
+    return model_cases(tier, seed) + edit_cases(tier, seed) + xref_cases(tier, seed) + derive_cases(tier, seed) + \
+        hier_rt_cases(tier, seed)
 
 
 def describe(tier, seed):
@@ -382,7 +449,7 @@ def describe(tier, seed):
                     '(replace/remove/append/add) over identifier sets that contain one another with each identifier at every '
                     'position, expected equations by token-level editing, and base: chains of length 1-3 with overrides; (d) references between two YAML files (qualified and bare '
                     'names that exist in both files) in every order of the node / edge / circuit entries; (e) circuits derived via base: '
-                    'that override inherited node keys, add nodes and add edges; (f) round trips of templates that share a name; '
+                    'that override inherited node keys, add nodes and add edges; (f) round trips of templates that share a name, and of hierarchies whose branches share one sub-circuit object and were updated differently; derived node templates without own operators; '
                     'non-trivial = all', 'bounds': {'nodes': 2, 'chain': 3}}
 
 
@@ -416,6 +483,8 @@ def run_case(case):
         return run_xref(case)
     if case['kind'] == 'derive':
         return run_derive(case)
+    if case['kind'] == 'hier_rt':
+        return run_hier_rt(case)
     return run_chain(case)
 
 
